@@ -18,5 +18,5 @@ FromWindow == c \in Window
 \* 256 increments = one step of the overflow part, same sequence number (window model only)
 Lap == LET y == Iter(c, 256) IN SqnOf(y) = SqnOf(c) /\ OvfOf(y) = (OvfOf(c) + 1) % 65536
 \* k increments in a row are one addition of k modulo 2^24
-Runs == \A k \in {2, 3, 255, 257, 300} : Iter(c, k) = AddRunF(c, k)
+Runs == \A k \in {2, 3, 17, 257} : Iter(c, k) = AddRunF(c, k)
 ============================================================================
